@@ -166,13 +166,13 @@ theorem gen_zero_in_all_answers_of_pots (nx : Nx) (g : GM (LogOf K)) (hd : g.dom
         ((C02E.genProjectC nx g.domain g.inCliques (modeOf g.elim) g.total p greedy b attrs).sem σ).v = 0)) := by
   have hmz : ∀ z ∈ zs, ∀ (as : List Attr) (σ : Attr → Nat), (∀ x ∈ z.zc, x ∈ as) → Hits z σ → g.domain.Valid σ →
       marginal g.domain p as σ = 0 := fun z hzm as σ hzc hit hσ =>
-    zero_in_all_answers_valid g.domain p z as σ hd hzc (fun τ hτ h => hZI.2 τ hτ ⟨z, hzm, h⟩) hσ hit
+    C10.zero_in_all_answers g.domain p z as σ hd hzc (fun τ hτ h => hZI.2 τ hτ ⟨z, hzm, h⟩) hσ hit
   refine ⟨hmz, fun hnn hZ htot => ?_⟩
   have hcl := (gen_init_cliques_ok nx g.domain g.inCliques g.total (modeOf g.elim) hd hne hin hadm).2.2
   have hpots : PotsOK g.domain (gmOf nx g).cliques p := potsOK_of_vecOK _ _ hcl p hZI.1 hnn
   have hcall : C02E.CallOK nx g.domain g.inCliques (modeOf g.elim) g.total p := ⟨hd, hne, hin, hadm, hpots, htot, hZ⟩
   refine ⟨fun z hzm c hc hzc σ hσ hit => ?_, fun z hzm greedy b attrs hnd hsub hzc hg σ hσ hit => ⟨?_, ?_⟩⟩
-  · have key := (gen_exact_inference_end_to_end nx g.domain g.inCliques (modeOf g.elim) g.total hd hne hin hadm p hpots hZ c hc
+  · have key := (gen_exact_inference_end_to_end nx g.domain g.inCliques (modeOf g.elim) g.total hd hne hin hadm p hpots hZ htot c hc
       σ hσ).2
     exact key.trans (by rw [hmz z hzm c σ hzc hit hσ, mul_zero, zero_div])
   · rw [(C02E.gen_project_uncached_end_to_end hcall greedy b attrs hnd hsub hg σ hσ).2, hmz z hzm attrs σ hzc hit hσ, mul_zero,
